@@ -26,7 +26,8 @@ GKDI_PORT = 49667
 #   results: string over {A accept, U user reject, P provider reject, N negotiate ack}, one char per result
 #   hs: 0/1 header-sign flag; tok: "tok" | "none" | "empty"
 # terminal elements: ["nak"], ["fault"], ["response"], ["request"], ["eof"], ["clear_response"]
-RESULT_CODE = {"A": 0, "U": 1, "P": 2, "N": 3}
+# (lower case: 16-bit values whose LOW octet is 0 - a rejection written big endian, or one altered octet; only 0 is acceptance)
+RESULT_CODE = {"A": 0, "U": 1, "P": 2, "N": 3, "u": 0x0100, "p": 0x0200, "n": 0x0300, "x": 0xFF00}
 TERMINALS = (["nak"], ["fault"], ["response"], ["request"], ["eof"], ["fault", 0x20], ["fault", 0x23 | 0x40],  # fault with PFC_DID_NOT_EXECUTE / PFC_MAYBE
              ["nak-cid", 0], ["nak-cid", 2], ["fault-cid", 0], ["fault-cid", 7])  # rejections whose call_id is not the one the client used
 
@@ -677,7 +678,7 @@ class C15(common.Check):
                                         "flavour": fl, "api": "raw", "seed": len(out), "slow_leg": [m, secs]})
         # the unauthenticated endpoint-mapper hop meets a server that does not accept the offered context
         for fl in ("sync", "async"):
-            for first in (["ack", "bind_ack", "U", 0, "none"], ["ack", "bind_ack", "P", 0, "none"], ["ack", "bind_ack", "N", 0, "none"], ["ack", "bind_ack", "", 0, "none"],
+            for first in (["ack", "bind_ack", "u", 0, "none"], ["ack", "bind_ack", "p", 0, "none"], ["ack", "bind_ack", "x", 0, "none"], ["ack", "bind_ack", "U", 0, "none"], ["ack", "bind_ack", "P", 0, "none"], ["ack", "bind_ack", "N", 0, "none"], ["ack", "bind_ack", "", 0, "none"],
                           ["ack", "bind_ack", "UA", 0, "none"], ["ack", "bind_ack", "PN", 1, "none"], ["nak"], ["ack", "bind_ack", "A", 0, "none"]):
                 for tail in (["response"], ["fault"], ["eof"]):
                     out.append({"epm_script": [first, tail], "flavour": fl, "seed": len(out)})
@@ -721,7 +722,7 @@ class C15(common.Check):
             for _ in range(depth):
                 if rng.random() < 0.72:
                     n = rng.choice((0, 1, 2, 2, 2, 3))
-                    res = "".join(rng.choice("AAUPN") for _ in range(n))
+                    res = "".join(rng.choice("AAUPNAAUPNup") for _ in range(n))
                     script.append(["ack", rng.choice(("pos", "pos", "pos", "bind_ack", "alter_resp")), res, rng.randint(0, 1),
                                    rng.choice(("tok", "tok", "none", "empty"))])
                 else:
